@@ -2,7 +2,7 @@
 import numpy as np
 import gen
 import spec
-from props.common import (load_impl, make_prov, exc_name, rand_keys, rand_ckeys, rand_raw_data, raw_true, raw_to_exprs, raw_padding_kinds,
+from props.common import (check_translated_query, load_impl, make_prov, exc_name, rand_keys, rand_ckeys, rand_raw_data, raw_true, raw_to_exprs, raw_padding_kinds,
                           raw_model_prov, make_raw_prov)
 
 RULE = ("random ragged DNF lists (rows 1-6, disjuncts 1-3, conjuncts 1-3, 2-3 candidates, value-0 literals, repeated units) "
@@ -116,6 +116,7 @@ def one_case(ctx, I, n_units, n_cands, exprs):
                          impl=dict(array=m_arr, list=m_list, dict=m_dict, idx=idx), spec=[spec.expr_true(e, a) for e in exprs])
             return
         impl_tab.append(m_arr)
+        check_translated_query(ctx, prov, a, m_arr, idx, dict(nUnits=n_units, nCands=n_cands, exprs=exprs))
     spec_tab = [[spec.expr_true(e, a) for e in exprs] for a in asg]
     model = ctx.model({"op": "history", "prov": {"nUnits": n_units, "nCands": n_cands, "exprs": exprs},
                        "ops": [{"op": "table"}, {"op": "dump"}]})
